@@ -43,6 +43,8 @@ conversion itself never faults is proven (`rl_history_builds_accepted_runs`); th
 import Sds.Proofs.Glue4
 import Sds.Proofs.Sparse2
 import Sds.Proofs.GenEqBuild
+import Sds.Proofs.GenEqConstr4
+import Sds.Proofs.GenEqConstr3
 
 namespace Sds.C16
 open Sds Outcome BuildersProofs
@@ -406,5 +408,38 @@ theorem sparse_builder_as_translated_from_source (m : Mode) (b : SparseBuilder) 
 it at the previous run start) -/
 example : (Generated.gen_RLBuilder_set_len .checked {} 8 >>= fun b => Generated.gen_RLBuilder_try_set .checked b 8 1)
     = ok { len := 9, ones := 1, tail := 0, run := (8, 1) } := by decide
+
+/-! **`RLBuilder::{default, new, encode}` as translated from the source on this run** (`Generated/FnsConstr4.lean`): the
+default builder (all counters 0, no samples, 4-bit code units) and `encode` — the `while value > CODE_MASK` loop pushing
+`(value & CODE_MASK) | CODE_FLAG` and shifting by `CODE_SHIFT`, then the final unit — equal to the model's `{}` and
+`RLBuilder.encode` (`encodeUnits 23`), for every `usize` value, on every well-formed 4-bit data vector with room for 22
+more units. -/
+theorem rl_builder_constructors_as_translated_from_source (m : Mode) :
+    Generated.gen_RLBuilder_default m = ok ({} : RLBuilder) ∧
+    Generated.gen_RLBuilder_new m = ok ({} : RLBuilder) ∧
+    (∀ (b : RLBuilder) (value : Nat), value < U64 → b.data.WF → b.data.width = 4 → (b.data.len + 22) * 4 + 63 < U64 →
+        Generated.gen_RLBuilder_encode m b value = ok { b with data := RLBuilder.encode b.data value }) :=
+  ⟨GenEq.rlb_default_eq m, GenEq.rlb_new_eq m, fun b value hv hwf hw hb => GenEq.rlb_encode_eq m b value hv hwf hw hb⟩
+
+/-! **The sparse builder's constructors and `SparseVector::try_from(builder)` as translated from the source on this run**
+(`Generated/FnsConstr3.lean`): `get_params` (the floating-point rule `round(max(1, log2(universe · ln 2 / ones)))` is the
+NAMED parameter `fw`; width 1 when `ones = 0` or `ones > universe`; `ones + get_buckets(universe, width)` high bits),
+`new` (the `ones > universe` error, `with_len(ones, width, 0).unwrap()`, the empty `high` inside `data`, the raw `high` of
+`high_len` zeros) and `multiset`, in the Rust layout `SparseBuilderR`, and `try_from` (the "not full" error,
+`BitVector::from(builder.high)`, `enable_select`, `enable_select_zero`).  For every width `1 ≤ fw ≤ 64` the code as it is
+NOW is the model builder the theorems above start from (`spbR` embeds the model builder in the Rust layout:
+`(spbR b).toModel = b` by `rfl`). -/
+theorem sparse_builder_constructors_as_translated_from_source (m : Mode) (fw univ ones : Nat) (hfw1 : 1 ≤ fw) (hfw2 : fw ≤ 64)
+    (hu : univ < U64) (hh : ones + Sparse.getBuckets univ (GenEq.spWidth fw univ ones) + 63 < U64)
+    (hl : ones * GenEq.spWidth fw univ ones + 63 < U64) :
+    Generated.gen_SparseBuilder_get_params m fw univ ones =
+        ok (GenEq.spWidth fw univ ones, ones + Sparse.getBuckets univ (GenEq.spWidth fw univ ones)) ∧
+    Generated.gen_SparseBuilder_new m fw univ ones =
+        (SparseBuilder.new (GenEq.spWidth fw univ ones) univ ones).bind (fun b => ok (GenEq.spbR b)) ∧
+    Generated.gen_SparseBuilder_multiset m fw univ ones =
+        (SparseBuilder.multiset (GenEq.spWidth fw univ ones) univ ones).bind (fun b => ok (GenEq.spbR b)) ∧
+    (∀ b : SparseBuilderR, 64 * b.high.data.size < U64 → Generated.gen_SparseVector_try_from m b = b.toModel.build) :=
+  ⟨GenEq.spb_get_params_eq m fw univ ones hfw2 hu (by omega), GenEq.spb_new_eq m fw univ ones hfw1 hfw2 hu hh hl,
+   GenEq.spb_multiset_eq m fw univ ones hfw1 hfw2 hu hh hl, fun b h => GenEq.sparse_try_from_eq m b h⟩
 
 end Sds.C16
